@@ -112,7 +112,7 @@ def _cases(draw, tier):
         ops.append(o)
     regname_const = None
     perturb = draw(st.sampled_from(['none', 'none', 'none', 'reg', 'drop', 'add', 'keylabel', 'keylabel', 'keyplus', 'keyplus',
-                                    'garbage', 'garbage', 'regnear', 'regnear', 'regoffset', 'regoffset']))
+                                    'garbage', 'garbage', 'regnear', 'regnear', 'regoffset', 'regoffset', 'regspell', 'regspell']))
     regs = isa.registers
     if perturb == 'reg' and ops and regs:
         i = draw(st.integers(0, len(ops) - 1))
@@ -121,6 +121,15 @@ def _cases(draw, tier):
         ops.pop(draw(st.integers(0, len(ops) - 1)))
     elif perturb == 'add':
         ops.insert(draw(st.integers(0, len(ops))), {'k': 'expr', 'e': ['num', draw(st.integers(0, 9)), 'dec']})
+    elif perturb == 'regspell' and ops and regs:
+        # a literal whose digits or character happen to spell a register name is a number all the same: $a, $ab, 'x'
+        spell = [['num', int(r, 16), 'hex$'] for r in regs if all(c in '0123456789abcdef' for c in r.lower())]
+        spell += [['num', ord(r), 'chr'] for r in regs if len(r) == 1]
+        idxs = [i for i, o in enumerate(ops) if o['k'] == 'expr']
+        if spell and idxs:
+            i = draw(st.sampled_from(idxs))
+            lit = draw(st.sampled_from(spell))
+            ops[i] = {'k': 'expr', 'e': draw(st.sampled_from([lit, ['bin', '+', lit, ['num', draw(st.integers(0, 3)), 'dec']]]))}
     elif perturb == 'regoffset' and ops and regs:
         # a register name, in any letter case, is not a number: not as the offset of an indirect register either
         idxs = [i for i, o in enumerate(ops) if o['k'] == 'indreg']
